@@ -3,6 +3,7 @@
 # prints one line per seed: DETECTED / MISSED / BROKEN
 cd /repo && git diff --quiet || { echo "/repo has local changes"; exit 2; }
 TIER=${1:-quick}
+IDX=/verif/seeded/INDEX.tmp; : > $IDX
 for d in /verif/seeded/*/; do
   id=$(basename $d); [ -f $d/patch.diff ] || continue
   pid=$(python3 -c "import json;print(json.load(open('$d/meta.json')).get('property','${id:0:3}'))" 2>/dev/null || echo ${id:0:3})
@@ -10,5 +11,14 @@ for d in /verif/seeded/*/; do
   out=$(cd /verif && NSTD_EVIDENCE_DIR=/var/tmp/nstd-verif-scratch-evidence ./check $pid --tier $TIER 2>&1); rc=$?
   git -C /repo checkout -- .
   rule=$(echo "$out" | grep -E "^  C[0-9]+\." | head -1 | cut -c3-60)
-  case $rc in 1) echo "$id $pid DETECTED  $rule";; 0) echo "$id $pid MISSED";; *) echo "$id $pid BROKEN(rc=$rc) $(echo "$out" | grep ANALYSIS | head -1)";; esac
+  case $rc in 1) echo "$id $pid DETECTED  $rule"; echo "$id $pid detected $rule" >> $IDX;; 0) echo "$id $pid MISSED"; echo "$id $pid blind-spot" >> $IDX;; *) echo "$id $pid BROKEN(rc=$rc) $(echo "$out" | grep ANALYSIS | head -1)"; echo "$id $pid blind-spot" >> $IDX;; esac
 done
+python3 - <<'PY'
+import json
+idx={}
+for l in open('/verif/seeded/INDEX.tmp', errors='replace'):
+    p=l.split(None,3)
+    if len(p)>=3: idx[p[0]]={"property":p[1],"status":p[2],"reported":(p[3].strip().split(' — ')[0].rstrip('\ufffd ') if len(p)>3 else "")}
+json.dump(idx,open('/verif/seeded/INDEX.json','w'),indent=1,sort_keys=True)
+PY
+rm -f /verif/seeded/INDEX.tmp
